@@ -478,4 +478,44 @@ def fold_limit_guards(m: Model, lgs):
     return out, sorted(consulted)
 
 
+def fold_delegation(m: Model):
+    """The plumbing `_get_targets` wrappers the schema extractor skips (sa.schema.Extractor.DELEGATES), folded with a
+    stub `_get_node_targets`: below every limit each wrapper offers exactly what the delegate yields for (node, branch)."""
+    from .bind import bound_class
+    from .model import ClassRef
+    RULES = 'pytableaux.proof.rules'
+    out, consulted = [], set()
+    for name in ('GetNodeTargetsRule', 'NarrowQuantifierRule', 'ModalOperatorRule', 'AccessNodeRule'):
+        it = Interp(dict(MaxWorlds='MaxWorlds', MaxConsts='MaxConsts', QuitFlag='QuitFlag', FilterHelper='FilterHelper', WorldIndex='WorldIndex',
+                         Target=lambda *a, **kw: dict(dict(a[0]) if a else {}, **kw), adds=lambda *groups, **kw: dict(adds=groups, **kw),
+                         group=lambda *a: tuple(a), EMPTY_SET=frozenset(),
+                         Node=Obj('Node', Key=Obj('Key', flag='flag', world='world'))), where=f'proof/rules.py {name}._get_targets')
+        calls = []
+
+        def stub(s_, node, branch):
+            calls.append((node, branch))
+            return iter(['T1', 'T2'])
+        no_limit = Obj('limit', is_exceeded=lambda *a: False, is_reached=lambda *a: False)
+        R = bound_class(m, it, ClassRef(RULES, name), consulted=consulted,
+                        extra_ns=dict(__getitem__=lambda s_, k: s_._helpers[k], _get_node_targets=stub))
+        r = R()
+        r._helpers = {'MaxWorlds': no_limit, 'MaxConsts': no_limit, 'QuitFlag': {}, 'FilterHelper': Obj('FH', release=lambda n, b: None)}
+
+        class NodeM(dict):
+            pass
+        node = NodeM(world=0)
+        try:
+            got = r._get_targets(node, 'BRANCH')
+            got = list(got) if got is not None else None
+            err = None
+        except Raised as e:
+            got, err = None, e.text
+        except (TypeError, KeyError, AttributeError, IndexError, ValueError) as e:
+            got, err = None, f'{type(e).__name__}: {e}'
+        ok = err is None and got == ['T1', 'T2'] and calls == [(node, 'BRANCH')]
+        out.append((ok, f'{name}._get_targets', f'with no limit passed it offers {got!r} (delegate called with {calls!r}){"; raises " + err if err else ""}; '
+                    f'expected exactly the targets of self._get_node_targets(node, branch)'))
+    return out, sorted(consulted)
+
+
 ALL = [fold_nodeconsts, fold_extended_quantifier_targets, fold_filter_cache, fold_world_index, fold_unserial, fold_branch_value_hook, fold_counts, fold_serial_rule]
